@@ -1,23 +1,6 @@
 #!/bin/sh
-# tools/run_benign.sh [name ...] -- every stored behaviour-preserving change (benign/<name>/<n>.diff) must leave all checks silent
+# tools/run_benign.sh [name ...] -- every stored behaviour-preserving change (benign/<name>/<n>.diff) must leave all checks silent:
+# any VIOLATION is a false alarm, any ANALYSIS-ERROR a checker that cannot read the refactored code.
 cd /verif
 NAMES="$@"; [ -n "$NAMES" ] || NAMES=$(ls benign)
-for b in $NAMES; do
-  for d in benign/$b/*.diff; do
-    W=/tmp/benignrun.$$
-    git -C /repo worktree add -q --detach $W HEAD || exit 2
-    if ! git -C $W apply /verif/$d 2>/dev/null; then
-      if ! (cd $W && patch -s -p1 -F3 < /verif/$d >/dev/null 2>&1); then echo "$d: does not apply"; git -C /repo worktree remove --force $W; continue; fi
-    fi
-    fired=""; err=""
-    for p in sa/props/c[0-9][0-9].py; do
-      id=$(basename $p .py | tr c C)
-      ./check $id --root $W --no-evidence >/tmp/benignrun.out.$$ 2>&1; rc=$?
-      if [ $rc = 1 ]; then fired="$fired $id"; [ -n "${VERBOSE:-}" ] && grep -v '^WARNING\|KNOWN' /tmp/benignrun.out.$$ | head -${VERBOSE} | cut -c1-400; fi
-      if [ $rc = 2 ]; then err="$err $id"; [ -n "${VERBOSE:-}" ] && grep -v '^WARNING' /tmp/benignrun.out.$$ | head -3 | cut -c1-400; fi
-    done
-    echo "$d: FALSE-ALARM from:[$fired ] ANALYSIS-ERROR from:[$err ]"
-    git -C /repo worktree remove --force $W
-  done
-done
-rm -f /tmp/benignrun.out.$$
+for b in $NAMES; do for d in benign/$b/*.diff; do echo "$d /verif/$d"; done; done | xargs -P ${JOBS:-8} -L 1 tools/run_patch.sh | sort
